@@ -77,8 +77,10 @@ func genDoc(r *Rng, maxLen int) []byte {
 				doc = append(doc, " \n\t\n"...)
 			}
 		}
-	case x < 97:
+	case x < 96:
 		doc = deepNest(r)
+	case x < 98:
+		doc = cardinality(r)
 	default:
 		doc = classLines(r)
 	}
@@ -179,6 +181,32 @@ func derive(r *Rng, doc []byte) []byte {
 	}
 	if r.Chance(0.15) && len(doc) > 1 {
 		doc = doc[:r.Intn(len(doc))]
+	}
+	if r.Chance(0.06) {
+		// a LONG run of blank lines (10-400 bytes; longer than many whole
+		// blocks) at 1-2 line starts, at the start or at the end: gaps between
+		// root blocks are the one part of the input that belongs to no block
+		n := r.Range(1, 2)
+		for i := 0; i < n; i++ {
+			at := r.Intn(len(doc) + 1)
+			for at < len(doc) && at > 0 && doc[at-1] != '\n' && doc[at-1] != '\r' {
+				at++
+			}
+			var run []byte
+			want := []int{10, 20, 40, 70, 130, 400}[r.Intn(6)]
+			unit := r.Pick([]string{"\n", "\n", "\r\n", "\r", " \n", "\t\n", "  \r\n", "mix"})
+			for len(run) < want {
+				u := unit
+				if u == "mix" {
+					u = r.Pick([]string{"\n", "\r\n", "\r", " \n", "\t\n", "   \n"})
+				}
+				run = append(run, u...)
+			}
+			if at > 0 && doc[at-1] != '\n' && doc[at-1] != '\r' {
+				run = append([]byte("\n"), run...)
+			}
+			doc = insertAt(doc, at, run)
+		}
 	}
 	if r.Chance(0.08) {
 		// leading / trailing blank material
@@ -577,6 +605,105 @@ func soup(r *Rng) []byte {
 	if r.Chance(0.15) {
 		// give reference-style constructs something to resolve against
 		sb.WriteString("\n[a]: /u\n[b]: /v 't'\n")
+	}
+	return []byte(sb.String())
+}
+
+// ---- high-cardinality content ------------------------------------------------
+//
+// Content-keyed state (a bounded cache of entity names, labels, destinations
+// or tag names; a table that is rebuilt or rotated once it holds N entries)
+// only leaves its first generation when a PROCESS has seen many DISTINCT keys.
+// The other generators draw from pools of a few dozen tokens, so over the
+// thousands of evaluations of one worker every such cache stays in its
+// warm-up state.  These documents carry 4-60 distinct keys of one or two
+// kinds, drawn from pools of 600 names each (a mix of real names and
+// synthesised ones), so a worker's history rotates a 64/128/256-entry
+// structure every few evaluations and later evaluations hit keys of an
+// earlier generation.
+
+var realEntities = []string{"amp", "lt", "gt", "quot", "apos", "nbsp", "copy", "reg", "trade", "hellip", "mdash", "ndash", "lsquo", "rsquo", "ldquo", "rdquo", "bull", "middot", "para", "sect", "deg", "plusmn", "times", "divide", "frac12", "frac14", "frac34", "sup1", "sup2", "sup3", "micro", "laquo", "raquo", "iexcl", "iquest", "cent", "pound", "yen", "euro", "curren", "brvbar", "uml", "ordf", "ordm", "not", "shy", "macr", "acute", "cedil", "Agrave", "Aacute", "Acirc", "Atilde", "Auml", "Aring", "AElig", "Ccedil", "Egrave", "Eacute", "Ecirc", "Euml", "Igrave", "Iacute", "Icirc", "Iuml", "ETH", "Ntilde", "Ograve", "Oacute", "Ocirc", "Otilde", "Ouml", "Oslash", "Ugrave", "Uacute", "Ucirc", "Uuml", "Yacute", "THORN", "szlig", "agrave", "aacute", "acirc", "atilde", "auml", "aring", "aelig", "ccedil", "egrave", "eacute", "ecirc", "euml", "igrave", "iacute", "icirc", "iuml", "eth", "ntilde", "ograve", "oacute", "ocirc", "otilde", "ouml", "oslash", "ugrave", "uacute", "ucirc", "uuml", "yacute", "thorn", "yuml", "Alpha", "Beta", "Gamma", "Delta", "Epsilon", "Zeta", "Eta", "Theta", "Iota", "Kappa", "Lambda", "Mu", "Nu", "Xi", "Omicron", "Pi", "Rho", "Sigma", "Tau", "Upsilon", "Phi", "Chi", "Psi", "Omega", "alpha", "beta", "gamma", "delta", "epsilon", "zeta", "eta", "theta", "iota", "kappa", "lambda", "mu", "nu", "xi", "omicron", "pi", "rho", "sigmaf", "sigma", "tau", "upsilon", "phi", "chi", "psi", "omega", "larr", "uarr", "rarr", "darr", "harr", "lArr", "rArr", "hArr", "forall", "part", "exist", "empty", "nabla", "isin", "notin", "ni", "prod", "sum", "minus", "lowast", "radic", "prop", "infin", "ang", "and", "or", "cap", "cup", "int", "there4", "sim", "cong", "asymp", "ne", "equiv", "le", "ge", "sub", "sup", "nsub", "sube", "supe", "oplus", "otimes", "perp", "sdot", "lceil", "rceil", "lfloor", "rfloor", "loz", "spades", "clubs", "hearts", "diams", "OElig", "oelig", "Scaron", "scaron", "Yuml", "fnof", "circ", "tilde", "ensp", "emsp", "thinsp", "zwnj", "zwj", "lrm", "rlm", "sbquo", "bdquo", "dagger", "Dagger", "permil", "lsaquo", "rsaquo", "oline", "frasl", "weierp", "image", "real", "alefsym", "crarr", "ClockwiseContourIntegral", "DoubleLongLeftRightArrow", "CounterClockwiseContourIntegral", "ngE", "nvlt", "Tab", "NewLine", "NotEqualTilde", "fjlig", "ThickSpace"}
+
+// cardKey returns the i-th key of a pool of 600 for the given kind.
+func cardKey(kind string, i int) string {
+	switch kind {
+	case "entity":
+		if i < len(realEntities) {
+			return "&" + realEntities[i] + ";"
+		}
+		return "&zq" + strconv.Itoa(i) + ";" // well-formed, unknown name
+	case "numeric":
+		if i%2 == 0 {
+			return "&#" + strconv.Itoa(33+i*37) + ";"
+		}
+		return "&#x" + strconv.FormatInt(int64(0xA0+i*29), 16) + ";"
+	case "label":
+		return "[" + []string{"ref ", "RÉF ", "ßx ", "n"}[i%4] + strconv.Itoa(i) + "]"
+	case "dest":
+		return "[t](/p" + strconv.Itoa(i) + "/ä?q=" + strconv.Itoa(i*7) + "&r=%zz \"T" + strconv.Itoa(i) + "\")"
+	case "autolink":
+		return "<http://h" + strconv.Itoa(i) + ".example/ü/" + strconv.Itoa(i) + ">"
+	case "tag":
+		return "<" + []string{"x-", "X-", "Custom", "sCRIPT"}[i%4] + strconv.Itoa(i) + " a=\"" + strconv.Itoa(i) + "\">"
+	case "info":
+		return "lang" + strconv.Itoa(i)
+	case "word":
+		return []string{"w", "Wé", "Ж", "x_"}[i%4] + strconv.Itoa(i)
+	}
+	return "k" + strconv.Itoa(i)
+}
+
+var cardKinds = []string{"entity", "entity", "entity", "numeric", "label", "label", "dest", "autolink", "tag", "tag", "info", "word"}
+
+func cardinality(r *Rng) []byte {
+	var sb strings.Builder
+	kinds := []string{r.Pick(cardKinds)}
+	if r.Chance(0.4) {
+		kinds = append(kinds, r.Pick(cardKinds))
+	}
+	n := []int{4, 8, 16, 30, 60}[r.Intn(5)]
+	// a window of the pool: neighbouring evaluations overlap in part
+	base := r.Intn(600)
+	width := []int{n, 2 * n, 150, 600}[r.Intn(4)]
+	var defs []string
+	perLine := r.Range(1, 6)
+	for i := 0; i < n; i++ {
+		kind := kinds[i%len(kinds)]
+		k := (base + r.Intn(width)) % 600
+		key := cardKey(kind, k)
+		switch kind {
+		case "label":
+			switch r.Intn(3) {
+			case 0:
+				sb.WriteString(key) // shortcut reference
+			case 1:
+				sb.WriteString("[text]" + key)
+			default:
+				sb.WriteString("!" + key + "[]")
+			}
+			if r.Chance(0.7) {
+				defs = append(defs, key+": /d"+strconv.Itoa(k)+" 't"+strconv.Itoa(k)+"'")
+			}
+		case "info":
+			sb.WriteString("\n```" + key + " &" + realEntities[k%len(realEntities)] + ";\nc\n```\n")
+		case "tag":
+			if r.Chance(0.3) {
+				sb.WriteString("\n\n" + key + "\nblock\n\n")
+			} else {
+				sb.WriteString(key)
+			}
+		default:
+			sb.WriteString(key)
+		}
+		if (i+1)%perLine == 0 {
+			sb.WriteString(r.Pick([]string{"\n", "\n", " \n", "\n\n", "\n> ", "\n- "}))
+		} else {
+			sb.WriteByte(' ')
+		}
+	}
+	sb.WriteString("\n\n")
+	for _, d := range defs {
+		sb.WriteString(d + "\n")
 	}
 	return []byte(sb.String())
 }
